@@ -144,6 +144,11 @@ func (e *G1) Unmarshal(m []byte) ([]byte, error) {
 
 	e.p.x.Unmarshal(m)
 	e.p.y.Unmarshal(m[numBytes:])
+	// a coordinate must be a reduced field element: x and x+p denote the same point and
+	// would otherwise give one signature several accepted encodings
+	if !gfpIsReduced(&e.p.x) || !gfpIsReduced(&e.p.y) {
+		return nil, errors.New("bn256: coordinate exceeds modulus")
+	}
 	montEncode(&e.p.x, &e.p.x)
 	montEncode(&e.p.y, &e.p.y)
 
@@ -163,6 +168,19 @@ func (e *G1) Unmarshal(m []byte) ([]byte, error) {
 	}
 
 	return m[2*numBytes:], nil
+}
+
+// gfpIsReduced reports whether the (not yet Montgomery-encoded) value is below the modulus p.
+func gfpIsReduced(e *gfP) bool {
+	for w := 3; w >= 0; w-- {
+		if e[w] < p2[w] {
+			return true
+		}
+		if e[w] > p2[w] {
+			return false
+		}
+	}
+	return false
 }
 
 // Hash m to a point in Curve.
